@@ -785,7 +785,7 @@ func validateFieldMapping(predecessorType reflect.Type, successorType reflect.Ty
 		return nil, nil
 	}
 
-	checker := func(value any) (any, error) {
+	checker := func(value any) (map[string]any, error) {
 		mValue := value.(map[string]any)
 		var err error
 		for k, v := range fieldCheckers {
@@ -801,7 +801,14 @@ func validateFieldMapping(predecessorType reflect.Type, successorType reflect.Ty
 		return mValue, nil
 	}
 	return &handlerPair{
-		invoke: checker,
+		invoke: func(value any) (any, error) {
+			checked, err := checker(value)
+			if err != nil {
+				return nil, err
+			}
+			return checked, nil
+		},
+		// keep the chunk type map[string]any in the stream form: the node's stream converter unpacks exactly that type
 		transform: func(input streamReader) streamReader {
 			return packStreamReader(schema.StreamReaderWithConvert(input.toAnyStreamReader(), checker))
 		},
